@@ -2,7 +2,7 @@
 from __future__ import annotations
 import time
 from harness.core import Task, OR, PROVED, REFUTED
-from contracts import calls, rx_calls
+from contracts import calls, rx_calls, scanners
 from contracts.common import *
 
 PROP = "C08"
@@ -23,9 +23,19 @@ def bounded_task():
     return Task(f"{PROP}.Bd.pipeline", PROP, "real pipeline", run)
 
 
+def _quote_split():
+    from bounded import c08
+    c = scanners.quote_split(PROP)
+    c.search_fn = c08.search
+    return c
+
+
+_quote_split.__name__ = "quote_split"
+
+
 def build(tier, seed):
     set_tier(tier)
-    tasks = [a_task(PROP, calls.strip_paren), a_task(PROP, calls.assoc_getitem), a_task(PROP, calls.assoc_contains), a_task(PROP, calls.assoc_remove_last),
+    tasks = [a_task(PROP, calls.strip_paren), a_task(PROP, calls.assoc_getitem), a_task(PROP, calls.assoc_contains), a_task(PROP, calls.assoc_remove_last), a_task(PROP, _quote_split),
              Task(f"{PROP}.B.call_patterns", PROP, "CALL_RE/SUBCALL_RE/ARITH_GOTO_RE/FORMAT_RE", lambda: rx_calls.obligations(PROP, "patterns")), bounded_task()]
     for part in rx_calls.reach_parts():
         tasks.append(Task(f"{PROP}.B.{part}", PROP, part, (lambda part=part: rx_calls.obligations(PROP, part))))
@@ -37,7 +47,7 @@ def build(tier, seed):
             "and their contents dropped, split whenever a group of depth retlevel closes",
             "a user function or array named `goto` is outside the subset",
         ],
-        "functions_under_contract": fn_meta([("ford.utils", "strip_paren", None), ("ford.sourceform", "Associations.__getitem__", None),
+        "functions_under_contract": fn_meta([("ford.utils", "strip_paren", None), ("ford.utils", "quote_split", "the ';' statement splitter: a call after a ';' is found only if the split is right"), ("ford.sourceform", "Associations.__getitem__", None),
                                              ("ford.sourceform", "Associations.__contains__", None), ("ford.sourceform", "Associations.remove_last_batch", None)]) +
         [{"constants": "CALL_RE, SUBCALL_RE, ARITH_GOTO_RE, FORMAT_RE and the order of the cascade branches"}],
         "unverified_surroundings": ["FortranContainer._add_procedure_calls as a whole (regex finditer over every depth, intrinsic filter, de-duplication)",
